@@ -129,6 +129,8 @@ pub fn shape(name: &str, n: usize) -> Option<String> {
         "alt_groups" => format!("{}(a)", rep("(a)|", n)),
         "nest_capture" => format!("{}a{}", rep("(", n), rep(")", n)),
         "nest_noncap" => format!("{}a{}", rep("(?:", n), rep(")", n)),
+        "nest_named" => format!("{}a{}", (0..n).map(|i| format!("(?<n{}>", i)).collect::<String>(), rep(")", n)),
+        "nest_noncap_named" => format!("{}{}{}", rep("(?:", n), (0..n).map(|i| format!("(?<n{}>a)", i)).collect::<String>(), rep(")", n)),
         "nest_lookahead" => format!("{}a{}", rep("(?=", n), rep(")", n)),
         "nest_lookbehind" => format!("{}a{}", rep("(?<=", n), rep(")", n)),
         "nest_modifier" => format!("{}a{}", rep("(?i:", n), rep(")", n)),
@@ -174,8 +176,8 @@ pub fn shape(name: &str, n: usize) -> Option<String> {
     })
 }
 
-pub const SHAPES: [&str; 41] = [
-    "sibling_nested_classes", "nested_class_list", "sibling_groups_in_group",
+pub const SHAPES: [&str; 43] = [
+    "nest_named", "nest_noncap_named", "sibling_nested_classes", "nested_class_list", "sibling_groups_in_group",
     "alt", "alt_in_group", "alt_groups", "nest_capture", "nest_noncap", "nest_lookahead", "nest_lookbehind", "nest_modifier", "nest_class", "nest_quant", "unbalanced_open", "unbalanced_close", "unbalanced_bracket", "stars", "groups", "named_groups", "dup_named_backref",
     "backrefs", "count_exact", "count_range", "count_group", "count_digits", "count_digits_range", "count_nested", "count_nested_big", "rgi_emoji", "prop_any", "literal", "literal_lookbehind", "literal_icase", "class_members", "class_ranges", "class_qstrings", "class_subtract",
     "escapes", "lazy_opt_groups", "lookbehind_groups", "alt",
